@@ -1,0 +1,194 @@
+//go:build verif
+
+package server
+
+import (
+	"sort"
+
+	"github.com/valinurovam/garagemq/consumer"
+	"github.com/valinurovam/garagemq/queue"
+	"github.com/valinurovam/garagemq/verifhook"
+)
+
+// VerifBoot starts the server like Start but returns instead of blocking and
+// installs no signal handlers (verification harness).
+func (srv *Server) VerifBoot() error {
+	srv.initServerStorage()
+	srv.initUsers()
+	if srv.storage.IsFirstStart() {
+		srv.initDefaultVirtualHosts()
+	} else {
+		srv.initVirtualHostsFromStorage()
+	}
+	if err := srv.initListener(); err != nil {
+		return err
+	}
+	srv.wg.Add(1)
+	go srv.acceptConnections()
+	srv.storage.UpdateLastStart()
+	srv.status = Running
+	return nil
+}
+
+// VerifAddr returns the listener address.
+func (srv *Server) VerifAddr() string { return srv.listener.Addr().String() }
+
+// VerifUnacked is the verification view of an unacknowledged delivery.
+type VerifUnacked struct {
+	Tag   uint64 `json:"tag"`
+	CTag  string `json:"ctag"`
+	Queue string `json:"queue"`
+	MsgID uint64 `json:"msgID"`
+	Body  string `json:"body"`
+}
+
+// VerifChannelSnap is the verification snapshot of a channel.
+type VerifChannelSnap struct {
+	ID            uint16                       `json:"id"`
+	Status        int                          `json:"status"`
+	Flow          bool                         `json:"flow"`
+	DeliveryTag   uint64                       `json:"deliveryTag"`
+	ConfirmTag    uint64                       `json:"confirmTag"`
+	ConfirmMode   bool                         `json:"confirmMode"`
+	ConfirmQueued int                          `json:"confirmQueued"`
+	HasCurrentMsg bool                         `json:"hasCurrentMsg"`
+	Incoming      int                          `json:"incoming"`
+	Consumers     []consumer.VerifConsumerSnap `json:"consumers"`
+	Unacked       []VerifUnacked               `json:"unacked"`
+	Qos           [4]uint64                    `json:"qos"`
+	ConsumerQos   [4]uint64                    `json:"consumerQos"`
+}
+
+// VerifConnSnap is the verification snapshot of a connection.
+type VerifConnSnap struct {
+	ID       uint64             `json:"id"`
+	Status   int                `json:"status"`
+	HasVhost bool               `json:"hasVhost"`
+	Outgoing int                `json:"outgoing"`
+	Read     int64              `json:"read"`
+	Handled  int64              `json:"handled"`
+	Written  int64              `json:"written"`
+	Qos      [4]uint64          `json:"qos"`
+	Channels []VerifChannelSnap `json:"channels"`
+}
+
+// VerifBindingSnap is the verification view of a binding.
+type VerifBindingSnap struct {
+	Queue string `json:"queue"`
+	Key   string `json:"key"`
+	NArgs int    `json:"nargs"`
+}
+
+// VerifExchangeSnap is the verification snapshot of an exchange.
+type VerifExchangeSnap struct {
+	Name       string             `json:"name"`
+	Type       byte               `json:"type"`
+	Durable    bool               `json:"durable"`
+	AutoDelete bool               `json:"autoDelete"`
+	Internal   bool               `json:"internal"`
+	System     bool               `json:"system"`
+	Bindings   []VerifBindingSnap `json:"bindings"`
+}
+
+// VerifSnapshot is the verification snapshot of the whole server.
+type VerifSnapshot struct {
+	Inflight    int64                  `json:"inflight"`
+	Pending     int64                  `json:"pending"`
+	StorePend   int                    `json:"storePending"`
+	Connections []VerifConnSnap        `json:"connections"`
+	Queues      []queue.VerifQueueSnap `json:"queues"`
+	Exchanges   []VerifExchangeSnap    `json:"exchanges"`
+	SrvReady    int64                  `json:"srvReady"`
+	SrvUnacked  int64                  `json:"srvUnacked"`
+	SrvTotal    int64                  `json:"srvTotal"`
+}
+
+// VerifSnapshot takes a snapshot of the server state for the verification harness.
+// With deep=false only what the quiescence test needs is collected.
+func (srv *Server) VerifSnapshot(deep bool) VerifSnapshot {
+	s := VerifSnapshot{Inflight: verifhook.Inflight(), Pending: verifhook.Pending()}
+	srv.connLock.Lock()
+	conns := make([]*Connection, 0, len(srv.connections))
+	for _, c := range srv.connections {
+		conns = append(conns, c)
+	}
+	srv.connLock.Unlock()
+	sort.Slice(conns, func(i, j int) bool { return conns[i].id < conns[j].id })
+	for _, c := range conns {
+		cs := VerifConnSnap{ID: c.id, Status: c.status, HasVhost: c.virtualHost != nil, Outgoing: len(c.outgoing),
+			Read: verifhook.KeyedGet("conn.read", c.id), Handled: verifhook.KeyedGet("conn.handled", c.id),
+			Written: verifhook.KeyedGet("conn.written", c.id), Qos: c.qos.VerifState()}
+		c.channelsLock.RLock()
+		chans := make([]*Channel, 0, len(c.channels))
+		for _, ch := range c.channels {
+			chans = append(chans, ch)
+		}
+		c.channelsLock.RUnlock()
+		sort.Slice(chans, func(i, j int) bool { return chans[i].id < chans[j].id })
+		for _, ch := range chans {
+			ch.confirmLock.Lock()
+			cq := len(ch.confirmQueue)
+			ch.confirmLock.Unlock()
+			hs := VerifChannelSnap{ID: ch.id, Status: ch.status, Flow: ch.active, DeliveryTag: ch.deliveryTag,
+				ConfirmTag: ch.confirmDeliveryTag, ConfirmMode: ch.confirmMode, ConfirmQueued: cq,
+				HasCurrentMsg: ch.currentMessage != nil, Incoming: len(ch.incoming),
+				Qos: ch.qos.VerifState(), ConsumerQos: ch.consumerQos.VerifState()}
+			if deep {
+				ch.cmrLock.RLock()
+				for _, cmr := range ch.consumers {
+					hs.Consumers = append(hs.Consumers, cmr.VerifSnap())
+				}
+				ch.cmrLock.RUnlock()
+				sort.Slice(hs.Consumers, func(i, j int) bool { return hs.Consumers[i].ID < hs.Consumers[j].ID })
+				ch.ackLock.Lock()
+				for tag, u := range ch.ackStore {
+					vu := VerifUnacked{Tag: tag, CTag: u.cTag, Queue: u.queue, MsgID: u.msg.ID}
+					for _, f := range u.msg.Body {
+						if len(vu.Body) < 64 {
+							vu.Body += string(f.Payload)
+						}
+					}
+					hs.Unacked = append(hs.Unacked, vu)
+				}
+				ch.ackLock.Unlock()
+				sort.Slice(hs.Unacked, func(i, j int) bool { return hs.Unacked[i].Tag < hs.Unacked[j].Tag })
+			}
+			cs.Channels = append(cs.Channels, hs)
+		}
+		s.Connections = append(s.Connections, cs)
+	}
+	for _, vh := range srv.vhosts {
+		s.StorePend += vh.msgStorageP.VerifPendingLen() + vh.msgStorageT.VerifPendingLen()
+		vh.quLock.RLock()
+		qs := make([]*queue.Queue, 0, len(vh.queues))
+		for _, q := range vh.queues {
+			qs = append(qs, q)
+		}
+		vh.quLock.RUnlock()
+		sort.Slice(qs, func(i, j int) bool { return qs[i].GetName() < qs[j].GetName() })
+		for _, q := range qs {
+			s.Queues = append(s.Queues, q.VerifSnap())
+		}
+		if deep {
+			vh.exLock.RLock()
+			for _, ex := range vh.exchanges {
+				es := VerifExchangeSnap{Name: ex.GetName(), Type: ex.ExType(), Durable: ex.IsDurable(), AutoDelete: ex.IsAutoDelete(),
+					Internal: ex.IsInternal(), System: ex.IsSystem()}
+				for _, b := range ex.GetBindings() {
+					n := 0
+					if b.Arguments != nil {
+						n = len(*b.Arguments)
+					}
+					es.Bindings = append(es.Bindings, VerifBindingSnap{Queue: b.GetQueue(), Key: b.GetRoutingKey(), NArgs: n})
+				}
+				s.Exchanges = append(s.Exchanges, es)
+			}
+			vh.exLock.RUnlock()
+			sort.Slice(s.Exchanges, func(i, j int) bool { return s.Exchanges[i].Name < s.Exchanges[j].Name })
+		}
+	}
+	s.SrvReady = srv.metrics.Ready.Counter.Count()
+	s.SrvUnacked = srv.metrics.Unacked.Counter.Count()
+	s.SrvTotal = srv.metrics.Total.Counter.Count()
+	return s
+}
